@@ -5,6 +5,7 @@ pub mod mvreg;
 pub mod ident;
 pub mod glist;
 pub mod map;
+pub mod merkle;
 
 use serde::{de::DeserializeOwned, Serialize};
 
